@@ -35,13 +35,14 @@ impl<A: Actor> Spawner<A> for SmolSpawner {
             log::trace!("joining smol task");
             let handle = Arc::clone(&handle);
             Box::pin(async move {
-                let mut handle: Option<smol::Task<DynResult<A>>> =
-                    handle.lock().await.take().and_then(|mut task| task.0.take());
+                // await the task inside its guard: if this join future is dropped
+                // half-way the guard detaches the task instead of cancelling the actor
+                let mut guard: Option<DetachOnDrop<DynResult<A>>> = handle.lock().await.take();
 
-                if let Some(handle) = handle.take() {
+                if let Some(task) = guard.as_mut().and_then(|guard| guard.0.as_mut()) {
                     // TODO: don't eat the error
 
-                    let actor = handle.await.ok();
+                    let actor = task.await.ok();
                     log::trace!("smol task completed");
                     actor
                 } else {
